@@ -144,21 +144,25 @@ def start_read(log, node, rid, data, off, size, sched=None, eager=False, lit=Fal
     return c
 
 
-def pump(g, until=None, max_steps=60000):
-    """Run the grid until quiescent (or until() is true).  A system that never becomes quiescent is cut off
-    after max_steps scheduler steps (returns -1): the reads still pending then simply have no Done event."""
+def pump(g, log=None, cap=None, max_steps=60000):
+    """Run the grid until quiescent.  A system that never becomes quiescent is cut off (returns -1) after
+    max_steps scheduler steps or when the event log grows beyond `cap` entries: the reads still pending then
+    simply have no Done event."""
     n = 0
     while True:
-        if until is not None and until():
-            return n
         try:
             if not g.step():
                 return n
         except Hang:
             return -1
         n += 1
-        if n > max_steps:
+        if n > max_steps or (cap is not None and log is not None and len(log) > cap):
             return -1
+
+
+def event_cap(data, seg=1):
+    """Generous bound on the number of events of one trace: a few per segment per read."""
+    return 150 + 6 * (len(data) // max(1, seg) + 1)
 
 
 # ------------------------------------------------------------------------------------------------
@@ -253,14 +257,16 @@ def run_layout_case(work, c, seed):
             node = g.nodemaker.create_from_cap(cap)
             lit = isinstance(node, LiteralFileNode)
             g.calllog[:] = []
+            cap_ev = event_cap(data, ev.get("ueb", {}).get("segment_size", 1))
             start_read(events, node, "r0", data, 0, None, lit=lit)
-            pump(g)
+            alive = pump(g, events, cap_ev) >= 0
             ns = node_sizes(node)
             if ns:
                 events.append(ns)
-            # a second read on the same (now warmed) node: explicit size
-            start_read(events, node, "r1", data, 0, c["size"] + rng.choice([0, 0, 1, 7]), lit=lit)
-            pump(g)
+            if alive:
+                # a second read on the same (now warmed) node: explicit size
+                start_read(events, node, "r1", data, 0, c["size"] + rng.choice([0, 0, 1, 7]), lit=lit)
+                pump(g, events, 2 * cap_ev)
         events.append({"ev": "End"})
     finally:
         layout.FORCE_V2 = False
@@ -338,6 +344,7 @@ def run_scenario(g, cap, data, consts, reads, rng, calm=False):
     pending = list(enumerate(reads))
     budget = [0 if calm else rng.choice([0, 1, 2, 3, 5])]
     steps = 0
+    cap_ev = len(reads) * event_cap(data, max(1, min(consts["maxseg"], len(data)))) + 200
     while True:
         # start reads: the first immediately, the others at random moments
         while pending and (not consumers or rng.random() < 0.25):
@@ -351,7 +358,7 @@ def run_scenario(g, cap, data, consts, reads, rng, calm=False):
             env_action(rng, consumers, budget)
         progressed = g.step()
         steps += 1
-        if steps > 60000:
+        if steps > 60000 or len(events) > cap_ev:
             break               # never quiescent: the pending reads have no Done event and End is rejected
         if not progressed:
             if pending:
@@ -402,7 +409,9 @@ def mode_reads(a, inp):
                 for j, c in enumerate(batch):
                     size = None if c["size"] < 0 else c["size"]
                     cons = start_read(events, node, "r%d" % j, data, c["off"], size, lit=lit)
-                    pump(g)
+                    if pump(g, events, (j + 1) * event_cap(data, max(1, min(f["maxseg"], len(data))))) < 0:
+                        obs.append({"case": c, "nbytes": cons.nbytes, "nwrites": cons.nwrites, "finished": cons.finished})
+                        break
                     obs.append({"case": c, "nbytes": cons.nbytes, "nwrites": cons.nwrites, "finished": cons.finished})
                 events.append({"ev": "End"})
                 out["singles"].append({"trace": {"consts": dict(consts, readers=["r%d" % j for j in range(len(batch))]),
